@@ -2,7 +2,7 @@
 import ast
 import string
 
-from .common import ctx, returns, calls_in_ctx, reach_from_succ, site, srcs_text, orient, inline_ast
+from .common import memo_rule, ctx, returns, calls_in_ctx, reach_from_succ, site, srcs_text, orient, inline_ast
 from ..flow import callee_attr
 from ..linexpr import lin, show, NotLinear
 from ..loader import AnalysisError, norm, NOVALUE
@@ -65,6 +65,8 @@ def normaliser_table(cx, var):
 
 
 def run(R):
+    memo_rule(R, 'C09.MEM.1', ('ndn.encoding.name.Name', 'ndn.encoding.name.Component'), 'names are lists of bytearray / memoryview components that callers edit in '
+              'place; a shared result makes every later conversion of the same text return the edited name')
     P = R.P
     # ------------------------------------------------------------------ TBL.1
     R.ob('C09.TBL.1', 'type/length numbers are written in their shortest form (byte order of encoded components = canonical order)')
